@@ -180,6 +180,21 @@ Theorem X01_Check_canonical : forall dbg v gs, wf_version v = true -> sgroups_ok
 Proof. exact Check_print. Qed.
 Print Assumptions X01_Check_canonical.
 
+(** the elements of spec are alternatives, and Check agrees with IsCompatible (both builds), on canonical strings *)
+Theorem X01_spec_elements_are_alternatives : forall v a b, wf_version v = true -> sgroups_ok a = true -> sgroups_ok b = true ->
+  IsCompatible (version_string v) (map group_string a ++ map group_string b) =
+  match IsCompatible (version_string v) (map group_string a), IsCompatible (version_string v) (map group_string b) with
+  | Some x, Some y => Some (x || y)
+  | _, _ => None
+  end.
+Proof. exact IsCompatible_alternatives. Qed.
+Print Assumptions X01_spec_elements_are_alternatives.
+
+Theorem X01_Check_agrees_with_IsCompatible : forall v gs dbg, wf_version v = true -> sgroups_ok gs = true ->
+  Check dbg (version_string v) (map group_string gs) = IsCompatible (version_string v) (map group_string gs).
+Proof. exact Check_agrees. Qed.
+Print Assumptions X01_Check_agrees_with_IsCompatible.
+
 (** WIDENING — the wildcard rules of the modelled range parser (the table in range.go), for canonical wildcard
     comparators in every operator spelling [s] of every comparator [c]; [wild_expansion c lo hi] is
       >= : [>= lo]   > : [>= hi]   < : [< lo]   <= : [< hi]   = : [>= lo; < hi]   != : [< lo; >= hi].
